@@ -120,7 +120,7 @@ CHECKS.update({
              "answer is correlated to the recorded application once, duplicates ignored.",
              "route_request_spec, C10_request_shape, C10_eligible, C10_none_is_error, C10_hbh_fresh, C10_correlation, C10_duplicate_ignored; over whole histories: "
              "C10_history_answer_to_sender, C10_history_answer_once, C10_history_requests_only_to_ready",
-             extra="Link/LinkIds.v ties the hop-by-hop generator to node/_helpers.py; concurrent senders are searched with the C16 schedule exploration"),
+             extra="Link/LinkIds.v ties the hop-by-hop generator to node/_helpers.py; concurrent senders are searched with the C16 schedule exploration; the model's atomic hand-over of an answer to the blocked sender is checked against the real send_request / receive_answer / send_message under every source-line interleaving with <= 1-2 pre-emptions (tools/racelib.py: 400 schedules quick, 3500 thorough) - a search, not a proof"),
  "C11": node("C11", "check_timers unfolded as a decision table over state x timers with per-peer override; exactly one DWR when idle, none while waiting, "
              "DWA restores READY, silence closes with the watchdog reason, no DWR while traffic arrives, DWR answered 2001 in both ready sub-states, "
              "timer check idempotent.",
@@ -158,7 +158,8 @@ CHECKS.update({
  "C17": node("C17", "The per-origin window is a bounded FIFO: append keeps the newest `size` identifiers in order, membership after a record, duplicates "
              "answered exactly when (T flag and identifier still in the window).",
              "bounded_append_spec, C17_window, C17_sa_mem_get, C17_sa_nodup, C17_dup_iff, C17_record; over whole histories: C17_history_window, "
-             "C17_history_duplicate_rejected, C17_history_no_false_duplicate"),
+             "C17_history_duplicate_rejected, C17_history_no_false_duplicate",
+             extra="the model's atomic recording step is checked against the real Node._record_answer under every source-line interleaving of 2-4 answering threads with <= 1-2 pre-emptions, followed by T-flagged repeats (tools/racelib.py) - a search, not a proof"),
  "C18": node("C18", "stop: one DPR to every ready connection (none when forced), stopping flag; while stopping no timers fire, nothing is dialled, newcomers "
              "are closed unserved; DPA closes once output is flushed; stop-finish closes every connection.",
              "C18_dpr_to_ready, C18_quiet_while_stopping, C18_newcomers_refused, C18_all_closed, C18_close_after_dpa; over whole histories (Proofs/NodeH.v): "
